@@ -36,7 +36,7 @@ ASSUMPTIONS = [
 
 from mitmproxy.addons import proxyauth as _proxyauth  # noqa: E402
 
-_ORIG_PARSE = _proxyauth.parse_http_basic_auth      # the real function (scenarios may summarise the module attribute)
+_ORIG = [_proxyauth.parse_http_basic_auth]      # the real function, boxed: native summaries also patch module-level aliases
 
 
 class Validator20:
@@ -102,7 +102,7 @@ def _register_oracles():
 
 
 def _orig_parse():
-    return _ORIG_PARSE
+    return _ORIG[0]
 
 
 def _real_parse(s):
@@ -284,7 +284,7 @@ def install_parse(vc):
     """parse_http_basic_auth as an uninterpreted partial function of the header text (real function natively)"""
     def summ(v, s):
         if v.mode == "native":
-            return _ORIG_PARSE(s)
+            return _ORIG[0](s)
         s = v.resolve(s)
         if not v.branch(SBool(_uf("parse20_ok", _S(), _Bo())(s.t))):
             v.it.raise_(ValueError, "invalid")
@@ -339,7 +339,8 @@ def lower_name(vc, f):
     return n.lower()
 
 
-AUTH_CANDS = [{"cred_value": v, "cred_value2": w} for v in (b"Basic dXNlcjpwYXNz", b"Basic dXNlcjp4", b"Basic !!!", b"", b"Digest x") for w in (b"Basic dXNlcjpwYXNz", b"x")]
+AUTH_CANDS = [{"cred_value": v, "cred_value2": w, "other_value": o} for v in (b"Basic dXNlcjpwYXNz", b"Basic dXNlcjp4", b"Basic !!!", b"", b"Digest x")
+              for w in (b"Basic dXNlcjpwYXNz", b"x") for o in (b"", b"Basic dXNlcjpwYXNz", b"Basic dXNlcjp4")]
 
 
 @scenario("authenticate_http", functions=[PA + "ProxyAuth.authenticate_http", PA + "is_http_proxy", PA + "http_auth_header", PA + "make_auth_required_response"],
@@ -457,7 +458,9 @@ def s_requestheaders(vc):
     with_validator = vc.case("validator", [True, False])
     known = vc.case("connection", ["fresh", "authenticated", "other_connection_authenticated"])
     replay = vc.case("is_replay", [None, "request"])
-    flow, client, req = mk_flow20(vc, "RegularMode", [(b"Host", b"example.com")], is_replay=replay, metadata=vc.dict([]))
+    has_cred = vc.case("request_has_credential_header", [False, True])
+    fields0 = [(b"Host", b"example.com")] + ([(b"Proxy-Authorization", vc.sym_bytes("cred_value"))] if has_cred else [])
+    flow, client, req = mk_flow20(vc, "RegularMode", fields0, is_replay=replay, metadata=vc.dict([]))
     other = mk_client(vc, name="other")
     stored = (vc.sym_str("stored_user"), vc.sym_str("stored_pass"))
     entries = {"fresh": [], "authenticated": [(client, stored)], "other_connection_authenticated": [(other, stored)]}[known]
@@ -475,7 +478,15 @@ def s_requestheaders(vc):
     if with_validator and known == "authenticated":
         vc.ensure("authenticated_connection.metadata_from_handshake", vc.eq(_dict_get(vc, flow.metadata, "proxyauth"), stored))
     vc.ensure("authenticated_map_untouched", len_(self_.authenticated) == len(entries))
-    vc.ensure("request_untouched_here", vc.eq(raw_fields(vc, req), ((b"Host", b"example.com"),)))
+    if with_validator and known == "authenticated" and has_cred:
+        # statement: "the credential header is removed before the request is forwarded" — also on a connection that was
+        # authenticated by CONNECT (KF-C20-2: the header of a later request in the tunnel is left in place)
+        names = [lower_name(vc, f) for f in header_fields(vc, req)]
+        vc.ensure_kf("authenticated_connection.credential_header_removed", b"proxy-authorization" not in names, "KF-C20-2", True)
+        vc.ensure("authenticated_connection.other_headers_untouched", [f for f in header_fields(vc, req) if lower_name(vc, f) != b"proxy-authorization"] == [] or
+                  vc.eq(tuple(f for f in header_fields(vc, req) if lower_name(vc, f) != b"proxy-authorization"), ((b"Host", b"example.com"),)))
+    else:
+        vc.ensure("request_untouched_here", vc.eq(raw_fields(vc, req), tuple(fields0)))
     if not must_auth:
         vc.ensure("no_response_set_here", isnone(flow.response))
 
@@ -549,3 +560,222 @@ def _reuse_c21():
 
 
 _reuse_c21()
+
+
+# =============================================================================================
+# T2 (bounded): every entry path with the real layers and the real ProxyAuth addon, sans-io
+
+CRED_ENCODINGS = [
+    ("valid", lambda b: b"Basic " + b(b"user:pass")),
+    ("valid.lowercase_scheme", lambda b: b"basic " + b(b"user:pass")),
+    ("valid.uppercase_scheme", lambda b: b"BASIC " + b(b"user:pass")),
+    ("valid.two_spaces", lambda b: b"Basic  " + b(b"user:pass")),
+    ("wrong_password", lambda b: b"Basic " + b(b"user:wrong")),
+    ("wrong_user", lambda b: b"Basic " + b(b"admin:pass")),
+    ("colon_in_password", lambda b: b"Basic " + b(b"user:pa:ss")),
+    ("colon_only_password", lambda b: b"Basic " + b(b"user::")),
+    ("empty_password", lambda b: b"Basic " + b(b"user:")),
+    ("no_colon", lambda b: b"Basic " + b(b"userpass")),
+    ("non_ascii_utf8", lambda b: b"Basic " + b("üser:päss".encode())),
+    ("non_utf8_bytes", lambda b: b"Basic " + b(b"\xfcser:p\xe4ss")),
+    ("malformed_base64", lambda b: b"Basic !!!notbase64"),
+    ("truncated_base64", lambda b: b"Basic " + b(b"user:pass")[:-2]),
+    ("missing", lambda b: None),
+    ("empty_value", lambda b: b""),
+    ("scheme_only", lambda b: b"Basic"),
+    ("digest_scheme", lambda b: b"Digest " + b(b"user:pass")),
+    ("three_tokens", lambda b: b"Basic " + b(b"user:pass") + b" x"),
+]
+
+
+def _ref_pairs(value):
+    """(strict pair or None, set of pairs any lenient reader could see) for a credential header value (RFC 7617)"""
+    import base64, binascii, re
+    if value is None:
+        return None, set()
+    m = re.fullmatch(rb"([!#$%&'*+\-.^_`|~0-9A-Za-z]+) +([A-Za-z0-9+/\-._~]+=*)", value)
+    strict, lenient = None, set()
+    if m and m.group(1).lower() == b"basic":
+        tok = m.group(2)
+        try:
+            raw = base64.b64decode(tok, validate=True)
+            try:
+                txt = raw.decode("utf-8")
+                if ":" in txt:
+                    u, _, p = txt.partition(":")
+                    strict = (u, p)
+            except UnicodeDecodeError:
+                pass
+        except (binascii.Error, ValueError):
+            pass
+    parts = value.split()
+    if len(parts) >= 2 and parts[0].lower() == b"basic":
+        for tok in parts[1:2]:
+            for dec in (lambda t: binascii.a2b_base64(t), lambda t: base64.b64decode(t + b"=" * (-len(t) % 4))):
+                try:
+                    raw = dec(tok)
+                except Exception:
+                    continue
+                for enc in ("utf-8", "latin-1"):
+                    txt = raw.decode(enc, "replace")
+                    if ":" in txt:
+                        u, _, p = txt.partition(":")
+                        lenient.add((u, p))
+                        u2, _, p2 = txt.rpartition(":")
+                        lenient.add((u2, p2))
+    if strict:
+        lenient.add(strict)
+    return strict, lenient
+
+
+VALIDATORS = {
+    "single": ("user:pass", lambda u, p: (u, p) == ("user", "pass")),
+    "any": ("any", lambda u, p: True),
+    "htpasswd": (None, lambda u, p: (u, p) in (("user", "pass"), ("üser", "päss"), ("user", "pa:ss"))),
+}
+
+
+def _htpasswd_file():
+    import base64, hashlib, tempfile, os
+    path = os.path.join(tempfile.gettempdir(), "pyvc_c20_htpasswd")
+    lines = []
+    for u, p in (("user", "pass"), ("üser", "päss"), ("user2", "pa:ss")):
+        lines.append(u + ":{SHA}" + base64.b64encode(hashlib.sha1(p.encode()).digest()).decode())
+    # htpasswd user names cannot contain ':', passwords can
+    lines.append("user:{SHA}" + base64.b64encode(hashlib.sha1(b"pass").digest()).decode())
+    open(path, "w", encoding="utf-8").write("\n".join(lines) + "\n")
+    return path
+
+
+VALIDATORS["htpasswd"] = (None, lambda u, p: (u, p) in (("user", "pass"), ("üser", "päss"), ("user2", "pa:ss")))
+
+ENTRY_PATHS = ["regular.absolute", "regular.connect", "upstream.absolute", "reverse", "transparent", "socks5"]
+
+
+def _mk_proxy(path, proxyauth_opt):
+    from mitmproxy.addons import proxyauth, next_layer
+    from props.addons_sansio import Proxy
+    spec = {"regular.absolute": "regular", "regular.connect": "regular", "upstream.absolute": "upstream:http://upstream:3128", "reverse": "reverse:http://target:8000",
+            "transparent": "transparent", "socks5": "socks5"}[path]
+    pa = proxyauth.ProxyAuth()
+    return Proxy(spec, [next_layer.NextLayer(), pa], proxyauth=proxyauth_opt, connection_strategy="lazy"), pa
+
+
+def _request_bytes(path, cred, n):
+    is_proxy = path.startswith(("regular", "upstream"))
+    name = b"Proxy-Authorization" if is_proxy else b"Authorization"
+    target = b"http://example.com/r%d" % n if path in ("regular.absolute", "upstream.absolute") else b"/r%d" % n
+    head = b"GET " + target + b" HTTP/1.1\r\nHost: example.com\r\nX-Probe: keep\r\n"
+    if cred is not None:
+        head += name + b": " + cred + b"\r\n"
+    return head + b"\r\n", name
+
+
+def _forwarded_requests(p):
+    """request heads written to any upstream connection"""
+    return [(conn, data) for conn, data in p.all_server_bytes() if data]
+
+
+def bounded(tier, seed):
+    import base64, itertools
+    b = Bounded()
+    b.rule = ("entry path {absolute-form via regular / upstream proxy, CONNECT tunnel + inner request, reverse, transparent, SOCKS5} x validator {single user, any, htpasswd file} x "
+              "credential encoding (valid in 4 spellings, wrong, ':' in password, empty, no colon, non-ASCII UTF-8, non-UTF-8, broken base64, missing, other scheme, extra tokens) x "
+              "2 requests per connection (second request with the same / without credentials); distinct = the tuple; non-trivial = credentials present")
+    b.bound = f"{len(ENTRY_PATHS)} entry paths x 3 validators x {len(CRED_ENCODINGS)} encodings x 2 second-request variants"
+    b.exhaustive = False
+    b64 = base64.b64encode
+    ht = _htpasswd_file()
+    for path, vkind, (cname, mk), second_same in itertools.product(ENTRY_PATHS, ["single", "any", "htpasswd"], CRED_ENCODINGS, [True, False]):
+        opt, accepts = VALIDATORS[vkind]
+        opt = opt or ("@" + ht)
+        cred = mk(b64)
+        strict, lenient = _ref_pairs(cred)
+        must_accept = strict is not None and accepts(*strict)
+        may_accept = any(accepts(u, p) for u, p in lenient)
+        key = (path, vkind, cname, second_same)
+        b.case(key, nontrivial=cred is not None)
+        inp = {"path": path, "validator": vkind, "credential": cname, "header": None if cred is None else cred.decode("latin-1"), "second_same": second_same}
+        try:
+            res = _run_path(path, opt, cred, second_same)
+        except Exception as e:
+            import traceback
+            b.fail("auth.total", inp, f"raised {type(e).__name__}: {e} {traceback.format_exc()[-600:]}")
+            continue
+        for i, r in enumerate(res):
+            tag = f"request{i + 1}"
+            expect_open = r["expect_open"]          # this request is covered by an earlier successful CONNECT / SOCKS5 handshake
+            if r["forwarded"] and not (may_accept or expect_open) and r["has_cred_or_handshake"]:
+                b.fail("auth.unauthenticated_request_not_forwarded", dict(inp, request=tag), f"forwarded {r['forwarded']!r} although no reading of the header yields an accepted pair")
+            if r["forwarded"] and not r["has_cred_or_handshake"]:
+                b.fail("auth.unauthenticated_request_not_forwarded", dict(inp, request=tag), f"forwarded {r['forwarded']!r} without credentials")
+            if r["presented"] and must_accept and not r["forwarded"]:
+                kf = "[colon-in-password]" if strict and ":" in strict[1] else ""
+                b.fail("auth.accepted_pair_is_accepted" + kf, dict(inp, request=tag), f"validator accepts {strict!r} but the request was answered with {r['client_status']!r}")
+            if not r["forwarded"] and not r["challenged"]:
+                b.fail("auth.rejected_client_gets_auth_required", dict(inp, request=tag), f"client got {r['client_bytes'][:80]!r}")
+            if r["forwarded"] and r["cred_header_forwarded"]:
+                b.fail("auth.credential_header_removed" + ("[authenticated-tunnel]" if r["expect_open"] else ""), dict(inp, request=tag), f"forwarded head still carries the credential header: {r['forwarded']!r}")
+            if r["forwarded"] and b"x-probe: keep" not in r["forwarded"].lower():
+                b.fail("auth.other_headers_kept", dict(inp, request=tag), f"{r['forwarded']!r}")
+    return b
+
+
+def _run_path(path, opt, cred, second_same):
+    """Drive one client connection with two requests. Returns per-request observations."""
+    p, pa = _mk_proxy(path, opt)
+    res = []
+    is_proxy = path.startswith(("regular", "upstream"))
+    status_needed = b"407" if is_proxy else b"401"
+    handshake_ok = False
+    if path == "regular.connect":
+        head = b"CONNECT example.com:80 HTTP/1.1\r\nHost: example.com:80\r\n" + ((b"Proxy-Authorization: " + cred + b"\r\n") if cred is not None else b"") + b"\r\n"
+        p.feed(head)
+        out = p.to_client()
+        handshake_ok = out.startswith(b"HTTP/1.1 200")
+        fw = b"".join(d for _, d in _forwarded_requests(p))
+        res.append(dict(forwarded=fw if (fw or handshake_ok) else b"", has_cred_or_handshake=cred is not None, presented=cred is not None, client_status=out[:12],
+                        challenged=(not handshake_ok) and out.startswith(b"HTTP/1.1 " + status_needed) and b"proxy-authenticate: basic" in out.lower(),
+                        cred_header_forwarded=b"proxy-authorization" in fw.lower(), client_bytes=out, expect_open=False))
+        if handshake_ok:
+            res[-1]["forwarded"] = b"(tunnel established) x-probe: keep"
+        creds = [None, cred if second_same else None]     # inner requests: first without, second with/without credentials
+    elif path == "socks5":
+        p.feed(b"\x05\x02\x00\x02")
+        greeting = p.to_client()
+        if cred is not None and greeting == b"\x05\x02":
+            # RFC 1929 sub-negotiation carries user/password directly (no base64): use the strict reading, else raw bytes
+            strict, _ = _ref_pairs(cred)
+            u, pw = (strict[0].encode(), strict[1].encode()) if strict else (b"user", cred[:200])
+            p.feed(b"\x01" + bytes([len(u)]) + u + bytes([len(pw)]) + pw)
+            handshake_ok = p.to_client().endswith(b"\x01\x00")
+        if handshake_ok:
+            p.feed(b"\x05\x01\x00\x03\x0bexample.com\x00\x50")
+        creds = [None, None]
+        if not handshake_ok:
+            # nothing may be forwarded at all
+            before = len(p.to_client())
+            p.feed(b"\x05\x01\x00\x03\x0bexample.com\x00\x50")
+            p.feed(_request_bytes(path, None, 1)[0])
+            fw = b"".join(d for _, d in _forwarded_requests(p))
+            return [dict(forwarded=fw, has_cred_or_handshake=False, presented=False, client_status=p.to_client()[:8], challenged=(greeting in (b"\x05\x02", b"\x05\xff\x00\x01\x00\x00\x00\x00\x00\x00") or True) and not fw,
+                         cred_header_forwarded=False, client_bytes=p.to_client(), expect_open=False)] if not fw else [dict(forwarded=fw, has_cred_or_handshake=False, presented=False, client_status=b"", challenged=False, cred_header_forwarded=False, client_bytes=p.to_client(), expect_open=False)]
+    else:
+        creds = [cred, cred if second_same else None]
+    for n, c in enumerate(creds, 1):
+        if not p.client_alive():
+            break
+        before_client = len(p.to_client())
+        before_srv = {id(conn): len(d) for conn, d in p.all_server_bytes()}
+        data, name = _request_bytes(path, c, n)
+        p.feed(data)
+        fw = b"".join(d[before_srv.get(id(conn), 0):] for conn, d in p.all_server_bytes())
+        out = p.to_client()[before_client:]
+        covered = handshake_ok and path in ("regular.connect", "socks5")
+        res.append(dict(forwarded=fw, has_cred_or_handshake=(c is not None) or covered, presented=c is not None, client_status=out[:12],
+                        challenged=out.startswith(b"HTTP/1.1 " + status_needed) and ((b"proxy-authenticate: basic" if is_proxy else b"www-authenticate: basic") in out.lower()),
+                        cred_header_forwarded=(name.lower() + b":") in fw.lower(), client_bytes=out, expect_open=covered))
+        if fw:
+            # the origin answers so that the next request can be sent on the same connection
+            p.reply(b"HTTP/1.1 200 OK\r\nContent-Length: 0\r\n\r\n")
+    return res
